@@ -685,6 +685,11 @@ func (g *coreGen) stmt(d int) Node {
 				"post", map[string]any(cn("inc", "n", v, "op", "++", "post", true)), "b", map[string]any(never))
 		}
 	}
+	if !g.inFn && g.r.Intn(30) == 0 {
+		return cn("block", "b", []any{
+			map[string]any(cn("expr", "e", map[string]any(cn("call", "f", "pr", "args", []any{map[string]any(g.num(1 + g.r.Intn(2)))})))),
+			map[string]any(cn("print", "args", []any{map[string]any(cn("str", "v", "pr2")), map[string]any(cn("call", "f", "pr", "args", []any{map[string]any(g.num(2))}))}))})
+	}
 	if !g.inFn && g.r.Intn(20) == 0 {
 		v := g.pick("g0", "g1", "g2")
 		arg := cn("asg", "n", v, "op", g.pick("=", "+=", "-="), "e", map[string]any(g.num(1+g.r.Intn(6))))
@@ -922,6 +927,11 @@ func (g *coreGen) program() Node {
 	fns = append(fns, map[string]any(cn("fn", "name", "od", "params", []any{"a", "b"}, "body", map[string]any(cn("block", "b", []any{
 		map[string]any(cn("if", "c", map[string]any(cn("bin", "op", "==", "l", map[string]any(cn("var", "n", "a")), "r", map[string]any(cn("null")))),
 			"th", map[string]any(cn("block", "b", []any{map[string]any(cn("expr", "e", map[string]any(cn("asg", "n", "a", "op", "=", "e", map[string]any(cn("var", "n", "b"))))))})), "el", map[string]any(cn("none")))),
+		map[string]any(cn("return", "e", map[string]any(cn("var", "n", "a"))))})))))
+	// pr prints a line whose last argument recurses into the same print statement
+	fns = append(fns, map[string]any(cn("fn", "name", "pr", "params", []any{"a"}, "body", map[string]any(cn("block", "b", []any{
+		ifle("a", cn("return", "e", map[string]any(cn("num", "v", 0)))),
+		map[string]any(cn("print", "args", []any{map[string]any(cn("str", "v", "pr")), map[string]any(cn("var", "n", "a")), map[string]any(cn("call", "f", "pr", "args", []any{am1}))})),
 		map[string]any(cn("return", "e", map[string]any(cn("var", "n", "a"))))})))))
 	// bmp assigns its parameter: an argument written as an assignment (bmp(g1 = 5)) hands over the assigned value
 	fns = append(fns, map[string]any(cn("fn", "name", "bmp", "params", []any{"a"}, "body", map[string]any(cn("block", "b", []any{
